@@ -34,8 +34,8 @@ DJANGO_FUNCS = {"contains", "startswith", "endswith", "length", "indexof", "subs
 def profile():
     p = scalar.Profile()
     p.funcs = set(DJANGO_FUNCS)
-    p.columns = dict(scalar.SCHEMA)
-    p.types = {"int", "float", "str", "bool", "datetime"}
+    p.columns = dict(scalar.SCHEMA, m="decimal")
+    p.types = {"int", "float", "str", "bool", "datetime", "decimal"}
     p.neg = False
     p.neg_literal = False
     p.bool_cmp_atoms = False
@@ -48,7 +48,7 @@ def load(rows):
     con = django_env.connection()
     with con.cursor() as cur:
         cur.execute("DELETE FROM t")
-        cur.executemany("INSERT INTO t (id,a,b,c,s,u,d,flag,f,g,dd) VALUES (%s,%s,%s,%s,%s,%s,%s,%s,%s,%s,%s)",
+        cur.executemany("INSERT INTO t (id,a,b,c,s,u,d,flag,f,g,dd,m) VALUES (%s,%s,%s,%s,%s,%s,%s,%s,%s,%s,%s,%s)",
                         [tuple(sqlite_env._adapt(r.get(k)) for k in sqlite_env.COLS) for r in rows])
 
 
